@@ -1,8 +1,14 @@
 (** C02 — proofs about the query path models (Model/{Sem,Cond,Prune,Layout,Known}.v). *)
 From Coq Require Import ZArith NArith List Bool Lia.
-From Snel Require Import Base.Bytes Model.Time Model.Value Model.Expr Model.Sem Model.Cond Model.Prune
+From Snel Require Import Base.Bytes Gen.Params Model.Time Model.Value Model.Expr Model.Sem Model.Cond Model.Prune
   Model.Layout Model.Known.
 Import ListNotations.
+
+(** The general theorems below hold whatever the switches read from the Rust text (Gen/Params.v)
+    say; only the closed witnesses of Part 5 compute with their current values. *)
+Local Opaque query_not_leaf_complement query_u64_neg_rejects_all query_i64_buffer_claims_all
+  query_mem_f64_view query_none_no_zones_temporal query_none_no_zones_enum query_none_no_zones_zonexor
+  query_hydrate_tagged_only query_bool_block_str_view.
 
 (** * Part 1 — zone sets *)
 
@@ -292,6 +298,14 @@ Proof.
   apply Z.leb_le in S. now rewrite S.
 Qed.
 
+Lemma mem_num_exact : forall d v op z,
+  is_num_kind (f_kind d) = true -> conforms d v = true -> small_u64 v ->
+  mem_num (to_mem v) op z = match num_view v with Some x => cmpZ op x z | None => false end.
+Proof.
+  intros d v op z K C S. unfold mem_num. rewrite (mem_num_view d v K C S).
+  destruct v; simpl in *; try reflexivity; destruct (f_kind d); simpl in *; discriminate.
+Qed.
+
 Lemma null_like_false : forall s, null_like s = false -> bytes_eqb [] s = false /\ bytes_eqb b_null s = false.
 Proof.
   intros s H. unfold null_like in H. apply orb_false_iff in H as [H1 H2].
@@ -330,8 +344,9 @@ Proof.
   destruct (z <? 0)%Z eqn:E; [|auto].
   apply Z.ltb_lt in E. assert (Hn : (0 <= Z.of_N n)%Z) by lia.
   unfold cmpZ. destruct (Z.compare_spec (Z.of_N n) z); try lia.
-  destruct op; simpl; try (split; reflexivity); try congruence;
-    exfalso; assert (0 <= z)%Z by (apply U; auto); lia.
+  destruct query_u64_neg_rejects_all;
+    (destruct op; simpl; try (split; reflexivity); try congruence;
+     exfalso; assert (0 <= z)%Z by (apply U; auto); lia).
 Qed.
 
 Lemma seg_str_view : forall d v c op s, is_str_kind (f_kind d) = true -> conforms d v = true -> cell_of d v c ->
@@ -475,7 +490,7 @@ Proof.
     simpl sat. unfold sat_atom. rewrite LK.
     destruct EC as [z K B L _ _ | s K -> B O NL].
     + exists (CNum f op z). split; [cbn [build]; now rewrite B|].
-      simpl. unfold mem_get. rewrite LK. rewrite (mem_num_view d v K C SM).
+      cbn [eval_mem]. unfold mem_get. rewrite LK. rewrite (mem_num_exact d v op z K C SM).
       now rewrite (sat_num_view d v op l z K C L).
     + exists (CStrC f op s). split; [cbn [build]; now rewrite B|].
       simpl. unfold mem_get. rewrite LK. rewrite (mem_str_view d v op s K C O NL).
@@ -878,7 +893,8 @@ Proof.
   - rewrite (filter_opt_exact _ _ (fun ze => sat_query sch q (snd ze))).
     + rewrite map_snd_filter. unfold read_rows.
       apply segs_rows_exact; auto.
-      * intros O. unfold mixed_provenance in MP. rewrite O in MP. simpl in MP. now apply no_untagged.
+      * intros O. apply andb_true_iff in O as [O1 O2]. unfold mixed_provenance in MP.
+        rewrite O1, O2 in MP. simpl in MP. now apply no_untagged.
       * unfold sound_from, leaves_sound in *. destruct (q_where q); auto. destruct (build_fg e); auto.
     + intros ze I. unfold read_rows in I. apply segs_read_in in I as [s [z [I1 [I2 [I3 I4]]]]].
       rewrite I3. apply filter_seg_exact; auto. apply OK. unfold events. apply in_or_app. right.
